@@ -69,6 +69,18 @@ def commands(text, name):
         if app == "Proj":
             continue
         cmds.append(("sd", ["sd", "-s", "%s <- %s" % (app, ep), "-o", "sd_%d.puml" % len(cmds), "main.sysl"], None))
+    starts = [(a, e) for a, e in eps if a != "Proj"][:3]
+    if len(starts) >= 2:
+        # one diagram that starts at two endpoints, and the diagrams of a project application (one per endpoint of it)
+        two = ["sd"]
+        for a, e in starts[:2]:
+            two += ["-s", "%s <- %s" % (a, e)]
+        cmds.append(("sd.two-starts", two + ["-o", "sd2_%d.puml" % len(cmds), "main.sysl"], None))
+        seq = "\nSeqProj:\n    both:\n%s    single:\n        %s <- %s\n" % (
+            "".join("        %s <- %s\n" % (a, e) for a, e in starts[:2]), starts[-1][0], starts[-1][1])
+        for k in files:
+            files[k] += seq
+        cmds.append(("sd.project", ["sd", "-a", "SeqProj", "-o", "sdp_%(epname).puml", "main.sysl"], None))
     for a in apps[:2]:
         cmds.append(("export.swagger.yaml", ["export", "-o", "sw_%d.yaml" % len(cmds), "-a", a, "main.sysl"], None))
         cmds.append(("export.swagger.json", ["export", "-o", "sw_%d.json" % len(cmds), "-a", a, "main.sysl"], None))
